@@ -2575,7 +2575,28 @@ impl Reference
 			{
 				Some((member, value_type)) =>
 				{
-					typer.put_symbol(&member, value_type)
+					// The steps that follow the member access tell how the
+					// type of the value relates to the type of the member.
+					let num_steps_up_to_member = steps
+						.iter()
+						.rposition(|step| step.get_member().is_some())
+						.map_or(0, |i| i + 1);
+					let steps_after_member = &steps[num_steps_up_to_member..];
+					let member_type = value_type.clone().map(|x| {
+						x.map(|x| build_type_of_ref1(x, steps_after_member, false))
+					});
+					let result = typer.put_symbol(&member, member_type);
+					result.map_err(|mut error| {
+						// Mention the type of the value as it was written.
+						if let (
+							Error::ConflictingTypes { current_type, .. },
+							Some(Ok(value_type)),
+						) = (&mut error, value_type)
+						{
+							*current_type = value_type;
+						}
+						error
+					})
 				}
 				None => Ok(()),
 			},
